@@ -79,7 +79,7 @@ impl Model {
         match self.tree.files.get(&fkey(id, ext)) {
             None => Err(IoKind::NotFound),
             Some(FileSt::Unreadable(k)) => Err(*k),
-            Some(FileSt::Data(d)) => Ok(d.clone()),
+            Some(FileSt::Data(d)) => Ok(materialize(d)),
         }
     }
     fn read_dir(&mut self, id: &str) -> Result<Vec<(bool, String, String)>, IoKind> {
